@@ -113,6 +113,8 @@ def apply_call(o, c):
     from . import C08
     if isinstance(c, (list, tuple)):
         obs.call(o.as_json, sort=c[0], minimal=c[1])
+    elif c.startswith("built:"):
+        pass  # (handled by check_case: the object itself is obtained that way)
     elif c.startswith("mutate:"):
         _, how, so, mi = c.split(":")
         ok, d = obs.call(o.as_json, sort=so == "True", minimal=mi == "True")
@@ -162,6 +164,13 @@ def check_case(P, case):
     ver = case["ver"]
     o = None
     before = case.get("calls_before") or []
+    built = [c[6:] for c in before if isinstance(c, str) and c.startswith("built:")]
+    if built:
+        ok, o = obs.call(obs.build, lib(), ver, case["vector"], built[0])
+        if not ok or o is None:
+            return
+        check_json(P, ver, T.split_prefix(ver, case["vector"])[0], case["vector"], case["sort"], case["minimal"], o, before)
+        return
     if before:
         ok, o = obs.call(lib().CLS[ver], case["vector"])
         if not ok:
@@ -279,6 +288,14 @@ def shard(P, ver, idx, nshards, n, seed):
                         P.stratum("caller-edited-the-previous-document")
                         check_json(P, ver, p, s, sort, minimal, o, tuple(before))
                         before.append((sort, minimal))
+        if j % 5 == 0:
+            # the document of the object obtained another way (a copy, a pickle round trip, from_rh_vector, the extractor)
+            s0 = V.spell(p, m, "shuffle", rng2)
+            how = obs.BUILT[(j // 5) % len(obs.BUILT)]
+            ok, o3 = obs.call(obs.build, lib(), ver, s0, how)
+            if ok and o3 is not None:
+                P.stratum("object-obtained-by:" + how)
+                check_json(P, ver, p, s0, bool(j % 2), bool(j % 3 == 0), o3, ("built:" + how,))
         if j % 23 == 0:
             # near-misses of this vector (padding, case, separators ...): whatever the constructor
             # ACCEPTS is an accepted vector and its JSON must validate as well
